@@ -12,6 +12,7 @@ import (
 	"fmt"
 	"math/big"
 	"math/rand"
+	"sort"
 	"strconv"
 	"strings"
 	"sync"
@@ -68,6 +69,7 @@ type world struct {
 	sk     [maxID + 2]string
 	leaves map[string][]byte
 	known  map[string]bool
+	skew   int64 // transaction creation date − block creation date for the following transactions
 }
 
 var blockCtr int64
@@ -471,6 +473,14 @@ func (x *world) step(op string) string {
 		x.nextBlock()
 		return "ok"
 	}
+	if len(w) == 2 && w[0] == "skew" {
+		dt, err := strconv.ParseInt(w[1], 10, 64)
+		if err != nil {
+			return "bad-op"
+		}
+		x.skew = dt
+		return "ok"
+	}
 	if len(w) != 6 {
 		return "bad-op"
 	}
@@ -620,6 +630,8 @@ func (x *world) step(op string) string {
 		return "bad-op"
 	}
 	t := x.w.Txn(x.cl[sender], multisigsc.Address, currency.Coin(value), currency.Coin(fee), nonce, transaction.TxnTypeSmartContract, fn, input)
+	// the transaction's own creation date is the client's choice; the block's creation date is x.w.Now
+	t.CreationDate = x.w.B.CreationDate + common.Timestamp(x.skew)
 	_, err := x.w.Exec(t)
 	status, cls, extra := "rejected", "-", "-"
 	if err == nil {
@@ -740,6 +752,8 @@ type gwallet struct {
 	regd     bool
 	transfer map[int][2]uint64 // name -> (dst, amount): the transfer the signers agree on
 }
+
+func sk0(sk []string, i int) string { return sk[i] }
 
 func gen(r *rand.Rand, thorough bool, i int) []string {
 	fee := 1
@@ -893,17 +907,74 @@ func gen(r *rand.Rand, thorough bool, i int) []string {
 	if thorough {
 		n = 8 + r.Intn(70)
 	}
+	type pkey struct{ w, name int }
+	created := map[pkey]int64{} // the generator's guess of when the live proposal (wallet, name) was opened
+	voted := map[pkey]map[int]bool{}
+	forced := []string{} // votes to emit next (straddle scenario)
 	for k := 0; k < n; k++ {
+		if len(forced) > 0 {
+			ops = append(ops, forced[0])
+			forced = forced[1:]
+			continue
+		}
+		// straddle the expiry of a live proposal: block date on one side, transaction date on the other
+		if r.Intn(7) == 0 && len(created) > 0 {
+			var keys []pkey
+			for kk := range created {
+				keys = append(keys, kk)
+			}
+			sort.Slice(keys, func(i, j int) bool { return keys[i].w*10+keys[i].name < keys[j].w*10+keys[j].name })
+			pk := keys[r.Intn(len(keys))]
+			exp := created[pk] + 604800
+			d := int64(r.Intn(7)) - 3 // block date = expiry + d
+			if target := exp + d; target >= now {
+				g := wallets[pk.w]
+				ops = append(ops, fmt.Sprintf("tick %d", target-now))
+				now = target
+				skw := int64(-10 - r.Intn(5)) // backdated transaction
+				if d < 0 {
+					skw = int64(10 + r.Intn(5)) // post-dated transaction
+				}
+				if r.Intn(5) == 0 {
+					skw = -skw
+				}
+				ops = append(ops, fmt.Sprintf("skew %d", skw))
+				tr := g.transfer[pk.name]
+				for _, sg := range g.signers {
+					if !voted[pk][sg] && len(forced) < 2 {
+						forced = append(forced, fmt.Sprintf("vote %s %d:%d:%d:%d:%s=:0", call(sg), pk.name, g.owner, tr[0], tr[1], sk0(sk, sg)))
+					}
+				}
+				forced = append(forced, "skew 0")
+				if now >= exp {
+					delete(created, pk)
+					delete(voted, pk)
+				}
+				continue
+			}
+		}
 		if r.Intn(9) == 0 {
 			dt := []int64{1, 60, 3600, 302400, 604799, 604800, 604801, 700000, 100000}[r.Intn(9)]
 			ops = append(ops, fmt.Sprintf("tick %d", dt))
+			now += dt
+			for kk, c := range created {
+				if now >= c+604800 {
+					delete(created, kk)
+					delete(voted, kk)
+				}
+			}
+			continue
+		}
+		if r.Intn(30) == 0 {
+			ops = append(ops, fmt.Sprintf("skew %d", []int64{-100, -1, 0, 1, 100, -700000, 700000}[r.Intn(7)]))
 			continue
 		}
 		if r.Intn(40) == 0 {
 			ops = append(ops, fmt.Sprintf("vote %s !%d", call(2+r.Intn(nClients)), r.Intn(8)))
 			continue
 		}
-		g := wallets[r.Intn(2)]
+		wi := r.Intn(2)
+		g := wallets[wi]
 		name := r.Intn(nNames)
 		tr, ok := g.transfer[name]
 		if !ok || r.Intn(25) == 0 {
@@ -957,6 +1028,14 @@ func gen(r *rand.Rand, thorough bool, i int) []string {
 			big = "1"
 		}
 		ops = append(ops, fmt.Sprintf("vote %s %d:%d:%d:%d:%s:%s", call(sender), name, src, dst, amt, sig, big))
+		if src == g.owner && g.regd {
+			pk := pkey{wi, name}
+			if _, ok := created[pk]; !ok {
+				created[pk] = now
+				voted[pk] = map[int]bool{}
+			}
+			voted[pk][sender] = true
+		}
 	}
 	return ops
 }
@@ -1118,8 +1197,11 @@ func oracle(ops, outs []string) *corr.Violation {
 		}
 		if w[0] == "tick" {
 			dt, _ := strconv.ParseInt(w[1], 10, 64)
-			now += dt
+			now += dt // `now` is the BLOCK's creation date: the only clock the property knows
 			continue
+		}
+		if w[0] == "skew" {
+			continue // the transaction's own creation date must not matter
 		}
 		cur, ok := parse(outs[i], false)
 		if !ok {
@@ -1161,6 +1243,7 @@ func oracle(ops, outs []string) *corr.Violation {
 			amt, _ := new(big.Int).SetString(f[3], 10)
 			ref := fmt.Sprintf("%d.%d", src, name)
 			pp, had := prev.props[ref]
+			had0 := had
 			cp, has := cur.props[ref]
 			// a proposal that was there before and had expired is a NEW proposal when it reappears (reading rule)
 			if had && now >= pp.expires {
@@ -1201,6 +1284,9 @@ func oracle(ops, outs []string) *corr.Violation {
 			counts := regd && signerTid != "" && validSig && cp.transfer == tstr && now < cp.expires && f[5] == "0" && amt.Sign() > 0
 			switch {
 			case cur.extra == "x":
+				if had0 && now >= pp.expires {
+					return mk("executed-after-expiry", fmt.Sprintf("proposal %s expired at %d, executed by a vote in a block created at %d", ref, pp.expires, now), i)
+				}
 				if tl.done {
 					return mk("executed-twice", "proposal "+ref+" had already been executed", i)
 				}
@@ -1245,6 +1331,9 @@ func oracle(ops, outs []string) *corr.Violation {
 					recorded = append(recorded, mk(sig, fmt.Sprintf("proposal %s executed; its threshold signature %s under the wallet key", ref, cp.valid), i))
 				}
 			case strings.HasPrefix(cur.extra, "r"):
+				if had0 && now >= pp.expires && cp.expires == pp.expires {
+					return mk("vote-counted-after-expiry", fmt.Sprintf("proposal %s expired at %d, vote appended in a block created at %d", ref, pp.expires, now), i)
+				}
 				if tl.done {
 					return mk("vote-appended-after-execution", ref, i)
 				}
@@ -1311,7 +1400,7 @@ func main() {
 			if th {
 				return 3000
 			}
-			return 170
+			return 130
 		},
 		Extra: func() map[string]interface{} {
 			m := map[string]interface{}{}
